@@ -86,10 +86,12 @@ def build(e, cfg, P):
     if cfg["layer"] == "serial":
         c, nu = conn(3, 2, "c", True), neuron(2)
         layer = neural.Serial(c, nu)
+        watched = nu
         cells = [layer.cell]
     else:
         ff, lat, fb = conn(3, 2, "ff"), conn(2, 2, "lat"), conn(2, 2, "fb", True)
-        layer = neural.RecurrentSerial(ff, lat, fb, neuron(2), C17.mk_neuron("lif", 2, B))
+        watched = neuron(2)
+        layer = neural.RecurrentSerial(ff, lat, fb, watched, C17.mk_neuron("lif", 2, B))
         cells = [layer.feedfwd_cell]
     trainer = None
     if cfg["trainer"] == "stdp":
@@ -103,11 +105,13 @@ def build(e, cfg, P):
             trainer.register_cell(f"c{i}", c)
     # a stand-alone monitor with history (reducer state and counters)
     mon = observe.InputMonitor(observe.CAReducer(DT, duration=2 * DT, inclusive=True, inplace=syn_inplace), layer)      # 3-slot ring, in-place or not
-    return layer, trainer, mon
+    # a single-slot (duration 0) running average of a persistent float state: its buffer must stay its own (no storage shared with the neuron)
+    mon2 = observe.StateMonitor(observe.EMAReducer(DT, 0.3, duration=0.0, inplace=(not syn_inplace)), "voltage", watched)
+    return layer, trainer, mon, mon2
 
 
 def run_step(e, cfg, model, x):
-    layer, trainer, mon = model
+    layer, trainer, mon, mon2 = model
     out = layer(x)
     if trainer is not None:
         if cfg["trainer"] == "mstdpet":
@@ -137,15 +141,17 @@ def h_checkpoint(e, cfg):
     from harness.common import witness_any
     if cfg["layer"] == "recurrent" and k >= 2:
         witness_any(e, "checkpoint:feedback-spikes-pending-at-the-checkpoint", A[0].feedback_spikes)
-    snaps = [snapshot(A[0]), snapshot(A[1]) if A[1] is not None else None, snapshot(A[2])]
+    snaps = [snapshot(A[0]), snapshot(A[1]) if A[1] is not None else None, snapshot(A[2]), snapshot(A[3])]
     Bm[0].load_state_dict(snaps[0])
     if Bm[1] is not None:
         Bm[1].load_state_dict(snaps[1])
     Bm[2].load_state_dict(snaps[2])
+    Bm[3].load_state_dict(snaps[3])
     compare_sd(e, A[0], Bm[0], "restored:layer")
     if A[1] is not None:
         compare_sd(e, A[1], Bm[1], "restored:trainer")
     compare_sd(e, A[2], Bm[2], "restored:monitor")
+    compare_sd(e, A[3], Bm[3], "restored:state-monitor")
     for t in range(m):
         x = e.sym((B, 3), torch.bool, f"x{t}", ind=True)
         oa, ob = flat(run_step(e, cfg, A, x)), flat(run_step(e, cfg, Bm, x))
@@ -156,6 +162,7 @@ def h_checkpoint(e, cfg):
         if A[1] is not None:
             compare_sd(e, A[1], Bm[1], "future:trainer", step=t)
         compare_sd(e, A[2], Bm[2], "future:monitor", step=t)
+        compare_sd(e, A[3], Bm[3], "future:state-monitor", step=t)
         e.oblige_eq("future:monitor-view", Bm[2].peek(), e.read(A[2].peek()), step=t)
 
 
@@ -237,7 +244,7 @@ def checks(tier):
 BOUNDS = {
     "quick": {"checkpoint step k": "0..4 (ring size 3) for the delayed STDP / no-trainer serial models, {0,2,3} otherwise", "target prior steps j": [1, 2], "steps after restore m": 2,
               "components": "Serial / RecurrentSerial x 4 synapses x LIF/ALIF/AdEx x delay none/2dt (heterogeneous per-synapse) x trainer none/STDP(delayed)/MSTDPET/DelayAdjustedSTDP x in-place/not "
-                            "(every component appears; not every combination) + a monitor with a 3-slot CA reducer; MaxRateClassifier (source fresh / rates assigned / trained by 1-2 labelled calls on symbolic rates; target with arbitrary rates and already used for inference; 1 labelled call after the restore; proportional on/off)",
+                            "(every component appears; not every combination) + an input monitor with a 3-slot CA reducer + a state monitor (single-slot EMA of the neuron voltage); MaxRateClassifier (source fresh / rates assigned / trained by 1-2 labelled calls on symbolic rates; target with arbitrary rates and already used for inference; 1 labelled call after the restore; proportional on/off)",
               "sizes": "3 inputs, 2 neurons, batch 1"},
     "thorough": {"all combinations": True, "k": "0..4", "j": [1, 2]},
 }
